@@ -930,7 +930,7 @@ impl Printer<'_> {
             w[4] = 0;
         }
         if x_is_const && sh.has_field() {
-            w[8] = 4;
+            w[8] = 6;
         }
         if self.plain_copies {
             w = [1, 0, 0, 0, 0, 0, 0, 0, 0, 0];
@@ -985,9 +985,30 @@ impl Printer<'_> {
                 format!("(match Some({x}) {{ Some({v1}) => {p}, None => 0 - 902 }})")
             }
             8 => {
-                // a field read directly off the constant
-                self.tags.insert("copy:const-field".into());
-                self.proj(sh, x, from)
+                // a field read directly off the constant: once, or twice in one item at places
+                // none of which is executed before the other on every path (the two blocks of
+                // an if, or one block of an if and the code after it); the condition is a call
+                // of registered functions, true or false at run time
+                let c = if self.rng.bool() { "n_to_i64(n_of(3)) == 3" } else { "n_to_i64(n_of(3)) == 4" };
+                match self.rng.below(4) {
+                    0 | 1 => {
+                        self.tags.insert("copy:const-field".into());
+                        self.proj(sh, x, from)
+                    }
+                    2 => {
+                        self.tags.insert("copy:const-field-in-both-branches".into());
+                        let a = self.proj(sh, x, from);
+                        let b = self.proj(sh, x, from);
+                        format!("(if {c} {{ {a} }} else {{ {b} }})")
+                    }
+                    _ => {
+                        self.tags.insert("copy:const-field-in-branch-and-after".into());
+                        let a = self.proj(sh, x, from);
+                        let b = self.proj(sh, x, from);
+                        let v2 = self.var();
+                        format!("{{ let {v1} = if {c} {{ {a} }} else {{ 0 - 909 }}; let {v2} = {b}; if {c} {{ {v1} }} else {{ {v2} }} }}")
+                    }
+                }
             }
             _ => {
                 self.tags.insert("copy:assign-over".into());
